@@ -175,6 +175,71 @@ Definition parent_ok (i : ainput) (p0 : parent) (refs_a : list ref) (us : list u
     (* deleted parent versions receive no annotations *)
     list_eqb ref_eqb (p_refs p0) refs_a && Nat.eqb (length us) 0.
 
+(* updates_exact, commit-time regime: the updates of index j are exactly the visible versions after
+   the selected one, up to (excluding) the version current at the next parent version — that one
+   included only when it was committed strictly earlier than the next parent; when the version
+   current at the next parent is deleted: those committed strictly earlier than the next parent;
+   all later versions for the last parent version.  (With known commit times the code does not
+   subtract the threshold: timeThresholdParent ignores its offset then.) *)
+Definition expected_updates_commit (i : ainput) (np : option parent) (cl : list child) (s : child)
+  : list child :=
+  let cis := i_cis i in
+  (* the bound of the next parent: its commit time; (its timestamp less the threshold when the
+     commit time is unknown — not used here, this oracle is applied in the commit regime only) *)
+  let nbound := fun n => time_threshold_parent cis n (- o_threshold (i_opts i)) in
+  let after := filter (fun c => Nat.ltb (c_vidx s) (c_vidx c)) cl in
+  filter c_visible
+    match np with
+    | None => after
+    | Some n =>
+        match current_at cis cl (pstamp cis n) with
+        | Some cn =>
+            if c_visible cn then
+              filter (fun c => Nat.ltb (c_vidx c) (c_vidx cn)
+                               || (Nat.eqb (c_vidx c) (c_vidx cn) && (stamp cis cn <? nbound n)))
+                     after
+            else filter (fun c => stamp cis c <? nbound n) after
+        | None => []
+        end
+    end.
+
+Definition updates_exact_ref (i : ainput) (p0 : parent) (np : option parent) (us : list update)
+  (j : nat) (r0 ra : ref) : bool :=
+  if filtered_out (o_filter (i_opts i)) r0 then true
+  else
+    match hist_of i (r_id r0) with
+    | HFound cl =>
+        if commit_regime_ref i p0 cl
+           && match np with Some n => commit_parent (i_cis i) n && (pstamp (i_cis i) p0 <=? pstamp (i_cis i) n) | None => true end
+        then
+          match find_version cl (r_version ra) with
+          | Some s =>
+              if carries ra s then
+                list_eqb Z.eqb (map c_version (expected_updates_commit i np cl s))
+                               (map u_version (filter (fun u => Nat.eqb (u_index u) j) us))
+              else true
+          | None => true
+          end
+        else true
+    | _ => true
+    end.
+
+Fixpoint forallb2i {A B} (f : nat -> A -> B -> bool) (k : nat) (a : list A) (b : list B) : bool :=
+  match a, b with
+  | [], [] => true
+  | x :: a', y :: b' => f k x y && forallb2i f (S k) a' b'
+  | _, _ => false
+  end.
+
+Definition updates_exact_ok (i : ainput) (o : outcome) : bool :=
+  forallb (fun k =>
+    match nth_error (i_parents i) k, nth_error (oc_parents o) k, nth_error (oc_updates o) k with
+    | Some p0, Some refs_a, Some us =>
+        negb (p_visible p0)
+        || forallb2i (updates_exact_ref i p0 (nth_error (i_parents i) (S k)) us) 0 (p_refs p0) refs_a
+    | _, _, _ => false
+    end) (seq 0 (length (i_parents i))).
+
 (* a referenced child without history / without a visible version *)
 Definition missing_child (i : ainput) : bool :=
   existsb (fun p => existsb (fun r =>
@@ -208,6 +273,7 @@ Definition j2 (i : ainput) (o : outcome) (obs : list tobs) : bool :=
     (* success: no referenced child may lack a history unless that is ignored *)
     (o_ignore_missing (i_opts i) || negb (missing_child i))
     && forallb3 (parent_ok i) (i_parents i) (oc_parents o) (oc_updates o)
+    && updates_exact_ok i o
     && forallb (travel_ok i o) obs
   else error_ok i o.
 
